@@ -29,7 +29,8 @@ type c11Case struct {
 	HoldWho  int // 0 nobody holds, 1 sender holds, 2 recipient holds, 3 both hold (recipient: HoldIdx2)
 	HoldIdx2 int
 	BalMode  int // 0 exact, 1 exact-1, 2 zero, 3 unknown denom
-	DepKind  int // 0 SendToHubEvent, 1 TransferToChainEvent->hub
+	DepKind  int // 0 SendToHubEvent, 1 TransferToChainEvent->hub, 2 TransferToChainEvent->bsc (onward transfer scheduled)
+	Residue  int64 // hub units sitting on the module's transit account before the deposit (left there by earlier fee payouts)
 }
 
 var c11Rates = []string{"0", "0.000000000000000001", "0.01", "0.9999"}
@@ -62,7 +63,8 @@ func c11Run(in *hub.Instance, cs c11Case) c11Res {
 	val := []hub.Validator{hub.NewValidator("A"), hub.NewValidator("B"), hub.NewValidator("C")}
 	rate := sdk.MustNewDecFromStr(c11Rates[cs.RateIdx])
 	g := StdGenesis(val, []int64{10, 10, 10}, []sdk.AccAddress{user}, nil)
-	g.Hub.TokenInfos = &mhubtypes.TokenInfos{TokenInfos: []*mhubtypes.TokenInfo{{Id: 1, Denom: "hub", ChainId: "ethereum", ExternalTokenId: EthHub, ExternalDecimals: cs.Dec, Commission: rate}}}
+	g.Hub.TokenInfos = &mhubtypes.TokenInfos{TokenInfos: []*mhubtypes.TokenInfo{{Id: 1, Denom: "hub", ChainId: "ethereum", ExternalTokenId: EthHub, ExternalDecimals: cs.Dec, Commission: rate},
+		{Id: 2, Denom: "hub", ChainId: "bsc", ExternalTokenId: BscHub, ExternalDecimals: 18, Commission: rate}}}
 	hv := c11HolderValues()[cs.HoldIdx]
 	switch cs.HoldWho {
 	case 1:
@@ -77,6 +79,9 @@ func c11Run(in *hub.Instance, cs c11Case) c11Res {
 	ctx := in.Ctx()
 	bad := func(rule, site, f string, a ...interface{}) c11Res {
 		return c11Res{v: &engine.Violation{Property: "C11", Rule: rule, Site: site, Detail: fmt.Sprintf("%+v: ", cs) + fmt.Sprintf(f, a...)}}
+	}
+	if cs.Kind == "deposit" && cs.DepKind == 2 {
+		return c11CrossChain(in, cs, val, rate, bad)
 	}
 	if cs.Kind == "deposit" {
 		var ev mhubtypes.ExternalEvent
@@ -202,6 +207,71 @@ func c11Run(in *hub.Instance, cs c11Case) c11Res {
 	return c11Res{outcome: fmt.Sprintf("send-ok-com%v", comExt.Sign() > 0), com: comExt}
 }
 
+// c11CrossChain: a deposit on ethereum bound for bsc. The hub schedules exactly what was locked: amount - commission - fee
+// for the recipient, the fee and a commission of at most rate x locked - whatever else sits on the transit account.
+func c11CrossChain(in *hub.Instance, cs c11Case, val []hub.Validator, rate sdk.Dec, bad func(rule, site, f string, a ...interface{}) c11Res) c11Res {
+	ctx := in.Ctx()
+	if cs.Residue > 0 {
+		c := sdk.NewCoins(sdk.NewInt64Coin("hub", cs.Residue))
+		if err := in.Bank.MintCoins(ctx, mhubtypes.ModuleName, c); err != nil {
+			panic(err)
+		}
+		if err := in.Bank.SendCoinsFromModuleToAccount(ctx, mhubtypes.ModuleName, mhubtypes.TempAddress, c); err != nil {
+			panic(err)
+		}
+	}
+	supply0 := in.Bank.GetSupply(in.Ctx(), "hub").Amount
+	ev := &mhubtypes.TransferToChainEvent{EventNonce: 1, ExternalCoinId: EthHub, Amount: sdk.NewIntFromBigInt(cs.Amount), Fee: sdk.NewIntFromBigInt(cs.Fee), Sender: hub.HexAddr("s"),
+		ReceiverChainId: "bsc", ExternalReceiver: hub.HexAddr("xr"), ExternalHeight: 10, TxHash: "0xd"}
+	for _, v := range val {
+		if r := in.DeliverMsg(hub.EventMsg(v.Orch, "ethereum", ev)); !r.OK() {
+			return c11Res{outcome: "claim-rejected"}
+		}
+	}
+	if p := in.NextBlock(5); p != nil {
+		return c11Res{outcome: "block-failure"}
+	}
+	conv := func(x *big.Int) *big.Int {
+		r := new(big.Int).Mul(x, pow10(18))
+		return r.Quo(r, pow10(int64(cs.Dec)))
+	}
+	locked, fee := conv(cs.Amount), conv(cs.Fee)
+	var pool []*mhubtypes.SendToExternal
+	in.Hub.IterateUnbatchedSendToExternals(in.Ctx(), "bsc", func(s *mhubtypes.SendToExternal) bool { pool = append(pool, s); return false })
+	in.Hub.IterateOutgoingTxsByType(in.Ctx(), "bsc", mhubtypes.BatchTxPrefixByte, func(_ []byte, o mhubtypes.OutgoingTx) bool {
+		pool = append(pool, o.(*mhubtypes.BatchTx).Transactions...)
+		return false
+	})
+	temp := in.Bank.GetBalance(in.Ctx(), mhubtypes.TempAddress, "hub").Amount
+	supply := in.Bank.GetSupply(in.Ctx(), "hub").Amount
+	if len(pool) == 0 {
+		// the deposit failed as a whole: nothing may have changed
+		if !temp.Equal(sdk.NewInt(cs.Residue)) || !supply.Equal(supply0) {
+			return bad("failed_deposit_changed_balances", "Handle(TransferToChainEvent->chain)", "no transfer scheduled, but transit account %s (was %d), supply %s (was %s)", temp, cs.Residue, supply, supply0)
+		}
+		return c11Res{outcome: "cross-chain-deposit-failed"}
+	}
+	if len(pool) != 1 {
+		return bad("deposit_scheduled_several_transfers", "Handle(TransferToChainEvent->chain)", "%d transfers scheduled", len(pool))
+	}
+	e := pool[0]
+	sum := e.Token.Amount.Add(e.Fee.Amount).Add(e.ValCommission.Amount).BigInt()
+	if sum.Cmp(locked) != 0 {
+		return bad("cross_chain_deposit_not_exact", "Handle(TransferToChainEvent->chain)", "locked amount converts to %s hub units, the scheduled transfer carries amount %s + fee %s + commission %s = %s (transit account held %d before)", locked, e.Token.Amount, e.Fee.Amount, e.ValCommission.Amount, sum, cs.Residue)
+	}
+	if e.Fee.Amount.BigInt().Cmp(fee) != 0 {
+		return bad("cross_chain_deposit_fee_not_exact", "Handle(TransferToChainEvent->chain)", "fee %s scheduled, the deposit's fee converts to %s", e.Fee.Amount, fee)
+	}
+	maxCom := rate.MulInt(sdk.NewIntFromBigInt(locked)).TruncateInt()
+	if e.ValCommission.Amount.GT(maxCom) {
+		return bad("commission_exceeds_rate", "Handle(TransferToChainEvent->chain)", "commission %s exceeds rate %s x locked %s = %s (transit account held %d before)", e.ValCommission.Amount, rate, locked, maxCom, cs.Residue)
+	}
+	if !temp.Equal(sdk.NewInt(cs.Residue)) {
+		return bad("cross_chain_deposit_moved_transit_funds", "Handle(TransferToChainEvent->chain)", "transit account holds %s after the deposit, %d before: the deposit accounted for funds it did not lock", temp, cs.Residue)
+	}
+	return c11Res{outcome: "cross-chain-deposit-ok"}
+}
+
 func c11Cases(tier string) []c11Case {
 	var out []c11Case
 	am := c11Amounts()
@@ -210,6 +280,16 @@ func c11Cases(tier string) []c11Case {
 		for _, d := range decs {
 			for dk := 0; dk < 2; dk++ {
 				out = append(out, c11Case{Kind: "deposit", Amount: a, Fee: big.NewInt(3), Dec: d, DepKind: dk})
+			}
+		}
+	}
+	// deposits bound for another chain, on a clean transit account and on one that holds a residue
+	for _, a := range am {
+		for _, d := range decs {
+			for _, res := range []int64{0, 850} {
+				for ri := range c11Rates {
+					out = append(out, c11Case{Kind: "deposit", Amount: a, Fee: big.NewInt(3), Dec: d, DepKind: 2, Residue: res, RateIdx: ri})
+				}
 			}
 		}
 	}
